@@ -185,6 +185,9 @@ type World struct {
 	Relay4    net.IP
 	Relay6    net.IP
 	AuthCalls int
+	// Rotated: what the operator did to an account after the world was built (guarded by lifeMu; see Rotate):
+	// user -> new password, or "" when the account was removed.
+	Rotated map[string]string
 	// GenFailNext makes the next n relay allocations fail; QuotaDeny makes the quota handler refuse.
 	GenFailNext int
 	QuotaDeny   bool
@@ -324,7 +327,20 @@ func NewWorld(cfg Config, clients, peers []string) (*World, error) {
 		AuthHandler: func(ra *turn.RequestAttributes) (string, []byte, bool) {
 			w.lifeMu.Lock()
 			w.AuthCalls++
+			np, rotated := w.Rotated[ra.Username]
 			w.lifeMu.Unlock()
+			if rotated {
+				if np == "" || ra.Realm != Realm {
+					return "", nil, false
+				}
+
+				uid := ra.Username
+				if uid == AnonUser {
+					uid = ""
+				}
+
+				return uid, wire.LongTermKey(ra.Username, ra.Realm, np), true
+			}
 			if ra.Username == RevokedUser && ra.Realm == Realm {
 				// an operator handler that derives the key first and decides afterwards: the verdict is "no"
 				return ra.Username, wire.LongTermKey(ra.Username, ra.Realm, RevokedPass), false
@@ -445,6 +461,16 @@ func (w *World) slow() {
 	if w.Cfg.SlowCB > 0 {
 		time.Sleep(w.Cfg.SlowCB)
 	}
+}
+
+// Rotate is the operator changing an account while the server runs: a new password, or "" to remove the user.
+func (w *World) Rotate(user, newPass string) {
+	w.lifeMu.Lock()
+	defer w.lifeMu.Unlock()
+	if w.Rotated == nil {
+		w.Rotated = map[string]string{}
+	}
+	w.Rotated[user] = newPass
 }
 
 func (w *World) eventHandler() turn.EventHandler {
